@@ -30,6 +30,14 @@ extern ssize_t mpt_stream_push(MPT_STRUCT(stream) *stream, size_t len, const voi
 	if (flags & MPT_STREAMFLAG(WriteMap)) {
 		flags &= ~MPT_STREAMFLAG(WriteBuf);
 	}
+	/* discard unfinished message */
+	if (len && !src) {
+		ssize_t post = mpt_queue_push(&stream->_wd, len, 0);
+		if (post >= 0) {
+			stream->_info._fd &= ~MPT_STREAMFLAG(MesgActive);
+		}
+		return post;
+	}
 	
 	while (1) {
 		ssize_t post;
